@@ -330,7 +330,7 @@ func eq64(a, b []int64) bool {
 }
 
 func main() {
-	c := hx.Start("C39", "Run.Check_C39", 350)
+	c := hx.Start("C39", "Run.Check_C39", 600)
 
 	oneM := func(src string, mc mcase) {
 		mc.Kind = "m"
